@@ -175,6 +175,65 @@ def impl_queries(rname, alphabet, words, cands):
     return codes, allowed
 
 
+def impl_queries_history(ctx, rname, alphabet, words, cands):
+    """The same queries through ONE long-lived Rule object that has just validated the SAME parent
+    node (both modes) while it still had different children; the parent is then edited in place
+    (add_child / remove_child) to the children of the case. Returns (codes, histories)."""
+    from metapype.eml import rule as R
+    from metapype.eml.exceptions import ChildNotAllowedError
+    from metapype.model.node import Node
+    try:
+        r = R.Rule(rname)
+    except Exception:  # noqa
+        return [-3] * (len(words) * len(cands)), [None] * len(words)
+    codes, hists = [], []
+    news = [Node(alphabet[x]) for x in cands]
+    for w in words:
+        parent = Node("parent")
+        kids = [Node(alphabet[c]) for c in w]
+        variant = ctx.rng.choice(["validated with one more child, then remove_child",
+                                  "validated with one child less, then add_child",
+                                  "validated with the same children"]) if w else "validated with one more child, then remove_child"
+        extra = None
+        if variant.startswith("validated with one more"):
+            extra = Node(alphabet[ctx.rng.randrange(len(alphabet))])
+            pos = ctx.rng.randint(0, len(kids))
+            for k in kids[:pos] + [extra] + kids[pos:]:
+                parent.add_child(k)
+        elif variant.startswith("validated with one child less"):
+            for k in kids[:-1]:
+                parent.add_child(k)
+        else:
+            for k in kids:
+                parent.add_child(k)
+        before = [c.name for c in parent.children]
+        for errs in (None, []):
+            try:
+                r.validate_rule(parent, errs)
+            except Exception:  # noqa
+                pass
+        if extra is not None:
+            parent.remove_child(extra)
+        elif variant.startswith("validated with one child less"):
+            parent.add_child(kids[-1])
+        assert [c.name for c in parent.children] == [alphabet[c] for c in w]
+        hists.append(f"r = Rule({rname!r}); r.validate_rule(parent) and r.validate_rule(parent, errs) with children {before}; "
+                     f"parent edited in place ({variant}); then r.child_insert_index(parent, new) on the same r and parent")
+        for new in news:
+            try:
+                k = r.child_insert_index(parent, new)
+                codes.append(k if isinstance(k, int) and not isinstance(k, bool) and k >= 0 else -8)
+            except ChildNotAllowedError:
+                codes.append(-1)
+            except ValueError:
+                codes.append(-2)
+            except Exception:  # noqa
+                codes.append(-9)
+    Node.store.clear()
+    return codes, hists
+
+
+
 def validator_accepts_children(rname, rj, kids):
     content = RL.canonical_content(rj)
     ff, codes = RL.impl_named_rule(rname, "x", content, [], kids)
@@ -289,7 +348,7 @@ def random_spec(ctx, ok):
 
 
 # ------------------------------------------------------------------ the check
-def judge(ctx, rname, rj, sp, mixed, names, alphabet, words, cands, codes, allowed, insert_ok, do_validator, stats, label=None):
+def judge(ctx, rname, rj, sp, mixed, names, alphabet, words, cands, codes, allowed, insert_ok, do_validator, stats, label=None, hists=None):
     """(S) the statement itself on the implementation's answers."""
     pos = {n: i for i, n in reversed(list(enumerate(names)))}   # first occurrence
     nc = len(cands)
@@ -299,11 +358,13 @@ def judge(ctx, rname, rj, sp, mixed, names, alphabet, words, cands, codes, allow
         for ci, x in enumerate(cands):
             xn = alphabet[x]
             k = codes[wi * nc + ci]
-            sig = (label or rname, tuple(w), x)
+            sig = (label or rname, tuple(w), x) if hists is None else ("hist", label or rname, tuple(w), x)
             ctx.case(sig, len(w) >= 1)
             base = {"kind": "impl-vs-statement", "rule": rname, "children_spec": rj[1], "existing_children": wn,
                     "new_child": xn, "observed": {-1: "ChildNotAllowedError", -2: "ValueError", -3: "Rule() raised",
                                                   -8: "non-index return value", -9: "other exception"}.get(k, k)}
+            if hists is not None:
+                base["history"] = hists[wi]
             if xn not in pos:
                 stats["refused"] += 1
                 if k != -1:
@@ -352,7 +413,7 @@ def judge(ctx, rname, rj, sp, mixed, names, alphabet, words, cands, codes, allow
                     ctx.fail(f"C17:restores-validator:{rname}", f"the validator accepts '{xn}' at {vvalid} but not at the suggested index {k}",
                              dict(base, valid_positions=vvalid, judged_by="Rule.validate_rule, child-related codes only"))
     # allowed-child query = occurs in some valid sequence
-    for ci, x in enumerate(cands):
+    for ci, x in enumerate(cands if hists is None else []):
         xn = alphabet[x]
         ctx.case(("allowed", label or rname, xn), True)
         a = allowed[ci]
@@ -372,6 +433,32 @@ def judge(ctx, rname, rj, sp, mixed, names, alphabet, words, cands, codes, allow
                      {"kind": "impl-vs-statement", "rule": rname, "children_spec": rj[1], "name": xn, "is_allowed_child": a})
 
 
+def hist_stateless(ctx, rname, rj, sp, mixed, names, alphabet, words, cands, codes, must_restore, stats, hmax, label=None):
+    """ASSUMPTION of the theorems: child_insert_index depends only on (rule, children now, new child).
+    Ask again through a long-lived Rule that validated the same parent before it was edited; the
+    answers are judged by the statement and compared with the fresh-object answers."""
+    nc = len(cands)
+    fidx = len(alphabet) - 1
+    pick = [i for i, w in enumerate(words) if fidx not in w]
+    if len(pick) > hmax:
+        pick = sorted(ctx.rng.sample(pick, hmax))
+    hwords = [words[i] for i in pick]
+    hcodes, hists = impl_queries_history(ctx, rname, alphabet, hwords, cands)
+    judge(ctx, rname, rj, sp, mixed, names, alphabet, hwords, cands, hcodes, [], must_restore, 0, stats, label=label, hists=hists)
+    for j, i in enumerate(pick):
+        for ci in range(nc):
+            a, b = hcodes[j * nc + ci], codes[i * nc + ci]
+            stats["history-sensitive queries"] += 1
+            if a != b:
+                ctx.fail(f"C17:stateful:{rname}", "child_insert_index on a long-lived Rule that validated the parent before it was edited answers "
+                         f"{a}, a fresh Rule answers {b} for the same children and new child",
+                         {"kind": "impl-vs-statement", "rule": rname, "children_spec": rj[1],
+                          "existing_children": [alphabet[c] for c in words[i]], "new_child": alphabet[cands[ci]],
+                          "history": hists[j], "long_lived_rule": a, "fresh_rule": b,
+                          "legend": "index, or -1 ChildNotAllowedError, -2 ValueError"}, concrete=False)
+                return
+
+
 def run(ctx):
     from metapype.eml import rule as R
     built = ctx.build(extra_targets=["theories/Model/Insert.v"])
@@ -380,6 +467,7 @@ def run(ctx):
     budget = 20000 if thorough else 4000
     nrand = 2000 if thorough else 300
     vrate = 0.05
+    hmax = 400 if thorough else 120
     ctx.extra["rule"] = (f"every shipped rule x words of length <= {maxlen} over the rule's names + one foreign name (all of them when "
                          f"#words x #names <= {budget}, else all of length <= 1 + a seeded sample) x every name + one foreign name as the "
                          f"new child; {nrand} random rules (half satisfying insert_ok) x all words of length <= 3 over their names; "
@@ -405,6 +493,7 @@ def run(ctx):
         # whether or not the rule satisfies the side condition of the theorem
         judge(ctx, rname, rj, sp, rname in MIXED, names, alphabet, words, cands, codes, allowed,
               True, vrate, stats)
+        hist_stateless(ctx, rname, rj, sp, rname in MIXED, names, alphabet, words, cands, codes, True, stats, hmax)
         cases.append(coq_icase(f"(rule_named rules {cstr(rname)})", alphabet, words, cands))
         wants.append(coq_iout(codes, allowed))
         meta.append({"rule": rname, "alphabet": alphabet, "words": words, "codes": codes, "allowed": allowed, "children": rj[1]})
@@ -437,6 +526,8 @@ def run(ctx):
             stats["random rules: insert_ok" if iok else "random rules: outside insert_ok"] += 1
             # random rules may legitimately fail the occurs-side condition: judge the allowed query only when every name can occur
             judge(ctx, "__v", rj, sp, False, names, alphabet, words, cands, codes, allowed, iok, vrate, stats, label=repr(children))
+            if k % 4 == 0:
+                hist_stateless(ctx, "__v", rj, sp, False, names, alphabet, words, cands, codes, iok, stats, hmax // 2, label=repr(children))
             cases.append(coq_icase(RL.coq_rule_raw(rj), alphabet, words, cands))
             wants.append(coq_iout(codes, allowed))
             meta.append({"rule": "__v", "alphabet": alphabet, "words": words, "codes": codes, "allowed": allowed, "children": children})
